@@ -7,9 +7,11 @@ from gen import macrooracle as mo
 from vlib import hx, unhx, fields, lst, files_req
 
 C09_THMS = ['Theo.C09_step_splice', 'Theo.C09_instantiate', 'Theo.C09_detect_leftmost', 'Theo.C09_detect_none', 'Theo.C09_step_none',
-            'Theo.C09_highest_priority', 'Theo.C09_leftmost_longest', 'Theo.C09_runs_to_fixpoint']
+            'Theo.C09_highest_priority', 'Theo.C09_leftmost_longest', 'Theo.C09_runs_to_fixpoint',
+            'Theo.C09_match_derives', 'Theo.C09_text_constraints', 'Theo.C09_match_complete']
 C12_THMS = ['Theo.C12_rejected_reported', 'Theo.C12_accepted_silent', 'Theo.C12_never_applied', 'Theo.C12_independent',
-            'Theo.C12_detector_is_prefix_lr']
+            'Theo.C12_detector_is_prefix_lr', 'Theo.C12_accepted_deterministic', 'Theo.C12_nondeterministic_rejected',
+            'Theo.C12_ends_in_P_or_ARGS']
 C13_THMS = ['Theo.C13_first_correct', 'Theo.C13_nullable_correct', 'Theo.C13_sound_full', 'Theo.C13_sound_prefix',
             'Theo.C13_value_is_fold', 'Theo.C13_reject', 'Theo.C13_complete_full', 'Theo.C13_complete_prefix', 'Theo.C13_fuel_mono',
             'Theo.C13_unambiguous', 'Theo.C13_ambiguous_conflict', 'Theo.C13_prefix_unique']
@@ -53,7 +55,7 @@ def build_case(rnd, fam, stream_len):
 
 
 def check_C09(ctx):
-    build_all(ctx, ['Theo.Props.C09'], C09_THMS)
+    build_all(ctx, ['Theo.Props.C09', 'Theo.Props.C09Semantic'], C09_THMS)
     if ctx.harness is None:
         return finish(ctx)
     r = ctx.rnd
@@ -152,7 +154,7 @@ def check_C09(ctx):
 
 
 def check_C12(ctx):
-    build_all(ctx, ['Theo.Props.C12'], C12_THMS)
+    build_all(ctx, ['Theo.Props.C12', 'Theo.Props.C12Semantic'], C12_THMS)
     if ctx.harness is None:
         return finish(ctx)
     ALPH = ['foo', ';', ',', '<ID>', '<INT>', '<V>', '<A>', '<P>']
